@@ -21,12 +21,13 @@ META = {
 }
 REQUIRED = ['Librfn.C13.' + n for n in ('init_independent_of_prior', 'init_validates', 'encode_decode_id', 'encode_decode_canon', 'describes_file',
                                         'set_num_frames_idempotent_in_frames', 'canon_made', 'decode_encode_id', 'encBytes_decoded',
-                                        'normalised_plain', 'normalised_skip', 'd10_old_setNumFrames_breaks_roundtrip',
+                                        'normalised_plain', 'normalised_skip', 'riff_size_consistent', 'data_size', 'block_align', 'byte_rate', 'bits',
+                                        'd10_old_setNumFrames_breaks_roundtrip',
                                         'd4_old_init_depends_on_prior', 'd3_old_init_chunk_size')]
 # byte-order lemmas proved by bv_decide (axioms `<lemma>._native.bv_decide.ax_*`) and the C13 theorems that rest on them
 BV_LEMMAS = {'Librfn.C12.dec16_encU16le', 'Librfn.C12.dec32_encU32le', 'Librfn.Lemmas.WavCodec.enc_dec32', 'Librfn.Lemmas.WavCodec.enc_dec16'}
 BV_OK = {'Librfn.C13.' + n for n in ('decode_pcm_list', 'decode_float_list', 'encode_decode_canon', 'encode_decode_id', 'decode_encode_id',
-                                     'encBytes_decoded', 'decode_encode_id_list')}
+                                     'encBytes_decoded', 'riff_size_consistent')}
 
 HLEN = {0: 44, 1: 44, 2: 58}
 ID = {'cid': pw.RIFF.hex(), 'fmt': pw.WAVE.hex(), 'fid': pw.FMT_.hex(), 'did': pw.DATA.hex()}
